@@ -118,8 +118,10 @@ pub fn row(a: &dyn Array, i: usize) -> String {
                 UnionMode::Dense => u.value_offset(i),
                 UnionMode::Sparse => i,
             };
+            // a union row is the pair (type id, child value): a null child of one variant is a
+            // different value from a null child of another variant
             let t = row(u.child(tid).as_ref(), off);
-            if t == NULL { t } else { format!("u{tid}:{t}") }
+            format!("u{tid}:{t}")
         }
     }
 }
